@@ -49,7 +49,8 @@ struct QsHarness : HarnessBase {
 		unsigned char reused[MAXA] = {};            // a fired node of this agent has been registered again (at most once per agent)
 	} r;
 	bool reuse = false;   // alphabet includes handing a node whose callback has fired back to await_barrier() as it is
-	QsHarness(int na, int nn, bool reuse_ = false) : NA(na), NN(nn), reuse(reuse_) {}
+	uint64_t base = 0;    // fast-forward a fresh domain: its grace-period counter starts here instead of at 1
+	QsHarness(int na, int nn, bool reuse_ = false, uint64_t base_ = 0) : NA(na), NN(nn), reuse(reuse_), base(base_) {}
 	const char *prop() const { return "C11"; }
 	Domain &dom() { return *reinterpret_cast<Domain *>(w.dom); }
 	Agent &agent(int i) { return *reinterpret_cast<Agent *>(w.agents[i]); }
@@ -72,6 +73,8 @@ struct QsHarness : HarnessBase {
 		AUNPOISON(&w, sizeof w);
 		memset(&w, 0, sizeof w);
 		new(w.dom) Domain();
+		// (private members are reachable because this harness is built with -fno-access-control)
+		if(base) { dom()._qs_counter.store(base, std::memory_order_relaxed); dom()._desired_qs_counter.store(base - 1, std::memory_order_relaxed); }
 		r = Ref{};
 		pending().reset();
 	}
@@ -172,6 +175,9 @@ static std::vector<Instance> instances(const std::string &tier) {
 	add(2, 3, th ? 16 : 14);
 	add(3, 1, th ? 15 : 13);
 	add(3, 2, th ? 14 : 12);
+	// a domain that has been up for a long time: the counter crosses 2^32 during the histories
+	{ BfsOptions o; o.max_depth = th ? 14 : 12; v.push_back(bfs_instance<QsHarness>("qs-seq-A2-N2-counter-near-2^32-D" + std::to_string(o.max_depth), o, 2, 2, false, (uint64_t(1) << 32) - 3)); }
+	{ BfsOptions o; o.max_depth = th ? 20 : 16; v.push_back(bfs_instance<QsHarness>("qs-seq-A1-N2-counter-near-2^32-D" + std::to_string(o.max_depth), o, 1, 2, false, (uint64_t(1) << 32) - 5)); }
 	// fired nodes handed back to await_barrier() unchanged
 	{ BfsOptions o; o.max_depth = th ? 14 : 12; v.push_back(bfs_instance<QsHarness>("qs-seq-A1-N3-reuse-D" + std::to_string(o.max_depth), o, 1, 3, true)); }
 	{ BfsOptions o; o.max_depth = th ? 12 : 10; v.push_back(bfs_instance<QsHarness>("qs-seq-A2-N2-reuse-D" + std::to_string(o.max_depth), o, 2, 2, true)); }
